@@ -60,7 +60,7 @@ fn gen_one(seed: u64, run: u64, tier: Tier, bk: Bk, op: &str, rep: u64) -> Plan 
             Tier::Quick => 2_000,
             Tier::Thorough => 100_000,
         };
-        let hop = [HistOp::Encrypt, HistOp::Sign, HistOp::GenLocal, HistOp::GenSecret, HistOp::PieWrap, HistOp::PwWrap, HistOp::PkeSeal][(rep % 7) as usize];
+        let hop = [HistOp::Encrypt, HistOp::Sign, HistOp::GenLocal, HistOp::GenSecret, HistOp::PieWrap, HistOp::PwWrap, HistOp::PkeSeal, HistOp::Refresh][(rep % 8) as usize];
         let count = match (hop, bk) {
             (HistOp::GenSecret, Bk::V1) => if tier == Tier::Quick { 2 } else { 24 },
             (HistOp::Sign, Bk::V1) => count / 20,
